@@ -314,7 +314,9 @@ def CLASS_OBJ(cname):
 def obj_attr(eng, v, cls, name, s):
     reg = eng.reg
     if reg.has_field(cls, name):
-        return [(SV(s.heap.get_field(v.ref, name), reg.field_ty(cls, name)), s)]
+        val = s.heap.get_field(v.ref, name)
+        s.assume(z3.Implies(is_ref(val), z3.And(get_ref(val) >= 0, get_ref(val) < s.heap.alloc)))
+        return [(SV(val, reg.field_ty(cls, name)), s)]
     if reg.is_class_var(cls, name):
         return [(SV(s.heap.get_field(CLASS_OBJ(reg.class_var_owner(cls, name)), name), reg.field_ty(cls, name)), s)]
     prop = reg.property_of(cls, name)
